@@ -97,8 +97,8 @@ def oracle_fan(case, ctx):
 def strat_ray(tier):
     off = st.integers(-10**6, 10**6) | st.integers(-3, 3)
     return st.fixed_dictionaries({
-        'oy': off, 'ox': off, 'h': st.integers(1, 11), 'w': st.integers(1, 11),
-        'py': st.integers(0, 10), 'px': st.integers(0, 10),
+        'oy': off, 'ox': off, 'h': st.integers(1, 11) | st.sampled_from([1, 16, 24, 33, 40]), 'w': st.integers(1, 11) | st.sampled_from([1, 16, 21, 40, 90]),
+        'py': st.integers(0, 10) | st.integers(0, 100), 'px': st.integers(0, 10) | st.integers(0, 100),
         'rad': st.floats(-10.0, 10.0, allow_nan=False) | st.sampled_from([0.0, math.pi / 2, math.pi, -math.pi / 2, math.pi / 4, 3 * math.pi / 4, math.atan2(1, 2)]),
         'step': st.sampled_from([0.01, 0.01, 0.02, 0.005]),
         'fn': st.sampled_from(['ray', 'ray', 'rays360', 'fancy']),
@@ -135,7 +135,7 @@ def oracle_ray(case, ctx):
         pass
     else:
         ctx.fail('compute_ray accepts an origin outside the area', {'kind': 'ray'})
-    ctx.ev.case(case, nt=(h * w >= 2), classes=['fn:' + case['fn'], 'far_offset' if abs(case['oy']) > 1000 else 'near_offset'])
+    ctx.ev.case(case, nt=(h * w >= 2), classes=['fn:' + case['fn'], 'far_offset' if abs(case['oy']) > 1000 else 'near_offset'] + (['large_area'] if max(h, w) >= 16 else []))
 
 
 # ------------------------------------------------------------------ (c) query histories (caching)
@@ -186,7 +186,7 @@ CHECKS = [
           required=['7x7']),
     Check('single_rays', oracle_ray, strategy=strat_ray, examples={'quick': 600, 'thorough': 3000}, shards={'quick': 4, 'thorough': 16},
           rule='areas up to 11x11 at arbitrary (also huge) integer offsets x origin x arbitrary angle x step size; 360-degree and corner fans at offsets',
-          required=['far_offset', 'fn:ray', 'fn:fancy', 'fn:rays360']),
+          required=['far_offset', 'fn:ray', 'fn:fancy', 'fn:rays360', 'large_area']),
     Check('query_histories', oracle_hist, strategy=strat_hist, examples={'quick': 150, 'thorough': 600}, shards={'quick': 4, 'thorough': 16},
           rule='sequences of 2-12 fan queries (same origin in different areas, repeats) through the cache: every answer valid, equal to an uncached computation and to the first answer for that key',
           required=['repeat_query']),
